@@ -203,7 +203,7 @@ def csGood (p : Attr) : Prop :=
   else if p.1 = "min_lat" then ∃ x, rCoord p.2 = .ok x
   else if p.1 = "max_lon" then ∃ x, rCoord p.2 = .ok x
   else if p.1 = "max_lat" then ∃ x, rCoord p.2 = .ok x
-  else if p.1 = "user" then True
+  else if p.1 = "user" then p.2.length ≤ 1024
   else if p.1 = "id" then ∃ x, rUlong p.2 = .ok x
   else if p.1 = "num_changes" then ∃ x, rUlong p.2 = .ok x
   else if p.1 = "comments_count" then ∃ x, rUlong p.2 = .ok x
@@ -231,7 +231,9 @@ theorem initChangesetAttrs_foldl : ∀ (as : List Attr) (_ : ∀ a ∈ as, csGoo
     rcases Classical.em (n = "max_lat") with rfl | h4
     · loop_case csGood initChangesetAttrs csStep
     rcases Classical.em (n = "user") with rfl | h5
-    · loop_case csGood initChangesetAttrs csStep
+    · simp (config := { decide := true }) only [csGood, if_true, if_false] at h0
+      have hlen : ¬ (1024 < v.length) := by omega
+      simp (config := { decide := true }) [initChangesetAttrs, csStep, ih', OplFmt.maxString, hlen]
     rcases Classical.em (n = "id") with rfl | h6
     · loop_case csGood initChangesetAttrs csStep
     rcases Classical.em (n = "num_changes") with rfl | h7
